@@ -161,6 +161,13 @@ impl<'tcx> Cx<'tcx> {
             Const::Unevaluated(..) | Const::Ty(..) => c.eval(tcx, env, rustc_span::DUMMY_SP).ok(),
         };
         if let Some(v) = val {
+            // constants of struct/enum/tuple type: the pretty-printed value (`Flags { a: true, .. }`, `Mode::Oneway`)
+            if matches!(ty.kind(), ty::Adt(..) | ty::Tuple(..)) && !matches!(v, ConstValue::ZeroSized) {
+                let shown = format!("{}", Const::Val(v, ty));
+                if shown.len() < 400 {
+                    let _ = write!(s, ",\"val\":{}", esc(&shown));
+                }
+            }
             match v {
                 ConstValue::Scalar(mir::interpret::Scalar::Int(i)) => {
                     if ty.is_bool() {
